@@ -794,6 +794,13 @@ def r13(ctx):
     ctx.floor("C05.R13", 13)
 
 
+def r14(ctx):
+    """"the two physical access paths give the same set" also on a store whose key-ordered index had to be rebuilt: migration 004
+    executes exactly when the index is empty and gives every record its index row (= C18.R2 / R4 for that migration)"""
+    from . import C18
+    ctx.share("C05.R14", C18.r2, "C18.R2", keep=lambda k: "by-key" in k or "004" in k or "by_key" in k, floor=1)
+    ctx.share("C05.R14", C18.r4, "C18.R4", keep=lambda k: "004" in k or "by_key" in k or "run_migration" in k, floor=1)
+
 def run(ctx):
     ctx.run_rule("C05.R1", r1)
     ctx.run_rule("C05.R2", r2)
@@ -808,3 +815,4 @@ def run(ctx):
     ctx.run_rule("C05.R11", r11)
     ctx.run_rule("C05.R12", r12)
     ctx.run_rule("C05.R13", r13)
+    ctx.run_rule("C05.R14", r14)
